@@ -36,7 +36,7 @@ func LowerBytes(s []byte) []byte {
 //
 //	linear:   0 <= from < to <= n                      -> from .. to-1
 //	circular: the window of x+x starting at from:
-//	          from <  to : to <= 2n, to-from <= n       -> (x+x)[from:to]
+//	          from <  to : from < 2n, to-from <= n      -> (x+x+x)[from:to]   (positions modulo n)
 //	          from >= to : from < n, to >= 0            -> (x+x)[from:to+n]   (x[from:] then x[:to])
 //
 // ok is false when (from, to) is outside that domain.
@@ -55,7 +55,7 @@ func WindowIndex(n, from, to int, circular bool) (idx []int, ok bool) {
 	}
 	var end int
 	if from < to {
-		if to > 2*n || to-from > n {
+		if from >= 2*n || to-from > n { // positions are taken modulo n: a window of x+x+x when it starts in the second copy
 			return nil, false
 		}
 		end = to
